@@ -33,6 +33,7 @@ REQUIRED = {
     "mon:sorted.same-tests": 500,
     "mon:sorted.ordered-by-id": 500,
     "mon:sorted.valueerror-iff-duplicate": 500,
+    "mon:sorted-then-filtered.exactly-the-chosen": 300,
     "mon:run.list-prints-exactly-the-ids": 100,
     "mon:run.load-list-runs-exactly-the-listed": 100,
 }
@@ -43,7 +44,7 @@ ASSUMPTIONS = [
     "custom filter_by_ids implementations used here honour the documented contract",
 ]
 
-KINDS = ["plain", "custom", "customsort", "customfilter", "custominplace"]
+KINDS = ["plain", "custom", "customsort", "customfilter", "custominplace", "fixturesuite"]
 
 
 def classes():
@@ -57,7 +58,7 @@ def classes():
 
         def sort_tests(self):
             type(self).sort_calls += 1
-            self._tests = sorted_tests(self, True)
+            self._tests = list(sorted_tests(self, True))
 
     class CustomFilter(unittest.TestSuite):
         def filter_by_ids(self, ids):
@@ -68,8 +69,14 @@ def classes():
             self._tests[:] = [filter_by_ids(t, ids) for t in self]
             return self
 
+    import fixtures
+    from testtools.testsuite import FixtureSuite
+
+    def fixture_suite(tests):
+        return FixtureSuite(fixtures.Fixture(), tests)
+
     return {"plain": unittest.TestSuite, "custom": Custom, "customsort": CustomSort,
-            "customfilter": CustomFilter, "custominplace": CustomInPlace}
+            "customfilter": CustomFilter, "custominplace": CustomInPlace, "fixturesuite": fixture_suite}
 
 
 def build(tree, cls, runlog):
@@ -185,9 +192,18 @@ def x_tree(ctx, case):
                   lambda: {"top": [type(c).__name__ for c in top], **detail()})
         ctx.check(keys_pre == sorted(keys_pre) or keys_post == sorted(keys_post), "sorted.ordered-by-id",
                   lambda: {"placement keys": keys_pre, "after inner sort": keys_post, **detail()})
+        # the sorted suite can still be filtered (testtools.run discover --load-list does exactly that)
+        try:
+            f2 = filter_by_ids(st, keep)
+            got2 = sorted(t.id() for t in iterate_tests(f2))
+            err2 = None
+        except Exception as e:  # noqa
+            got2, err2 = None, e
+        ctx.check(err2 is None and got2 == sorted(i for i in L if i in keep), "sorted-then-filtered.exactly-the-chosen",
+                  lambda: {"error": repr(err2), "got": got2, "want": sorted(i for i in L if i in keep), **detail()})
         # suites with sort_tests are sorted inside
         for obj, pre_ids in customs.values():
-            if type(obj).__name__ == "CustomSort" and all(
+            if type(obj).__name__ in ("CustomSort", "FixtureSuite") and all(
                     hasattr(c, "id") and not hasattr(c, "__iter__") for c in obj):
                 inner = [t.id() for t in obj]
                 ctx.check(inner == sorted(inner), "sorted.sort_tests-honoured", lambda: {"inner": inner})
@@ -361,7 +377,14 @@ def random_tree(rng, depth, ids, dup_rate):
 def fresh_ids(rng):
     pool = list(ID_POOL) + ["t%d" % i for i in range(40)]
     rng.shuffle(pool)
-    return iter(pool)
+
+    def gen():
+        yield from pool
+        n = 1000
+        while True:
+            n += 1
+            yield "u%d" % (n * 7919 % 100003)   # unordered but unique
+    return gen()
 
 
 def run(ctx):
